@@ -284,6 +284,9 @@ pub fn run_c01(out: &mut Out, tier: &str, seed: u64) {
     crate::objapi::classic_box_forms(out, &mut rng);
     #[cfg(feature = "nightly")]
     crate::c18::containers(out, &mut rng, false);
+    crate::objapi::conversions(out, &mut rng);
+    crate::objapi::seeded_object_keys(out, &mut rng);
+    crate::consts::check(out, &["CRYPTO_BOX", "CRYPTO_SECRETBOX"]);
 }
 
 /// One tamper family over secretbox / box / sealed box: every single-bit flip of every component,
@@ -555,6 +558,7 @@ pub fn tamper(out: &mut Out, tier: &str, seed: u64, c02: bool, c17: bool) {
 pub fn run_c02(out: &mut Out, tier: &str, seed: u64) {
     tamper(out, tier, seed, true, false);
     crate::stream::tamper_stream(out, tier, seed, true, false);
+    { let mut rng = Rng::new(seed, "c02-extra"); crate::objapi::conversions(out, &mut rng); }
 }
 pub fn run_c17(out: &mut Out, tier: &str, seed: u64) {
     tamper(out, tier, seed, false, true);
